@@ -78,6 +78,7 @@ func init() {
 			{Name: "mus-unminimised", Module: "MUS", Cfg: "MUS_ascoded.cfg", Workers: 4, XmxMB: 4000, Timeout: 10 * time.Minute, ExpectViolation: "ResultIsMUS"},
 		},
 		TraceModule: "ExplainTrace",
+		Amplify:     amplifyExplain,
 		Budget:      0,
 		Cases: func(env *core.Env) []core.Case {
 			r := env.Rand
@@ -94,6 +95,35 @@ func init() {
 					}
 					clauses = gen.Shuffle(r, clauses)
 				}
+				if i%3 == 1 { // sparse mixes whose unsatisfiability hangs on a fact and its consequences: the
+					// relaxed problem propagates them at the assumption level, deeper conflicts resolve through them
+					n = 5 + r.Intn(4)
+					clauses = [][]int{{gen.RandLit(r, n)}}
+					if r.Intn(3) == 0 {
+						clauses = append(clauses, []int{gen.RandLit(r, n)})
+					}
+					clauses = append(clauses, gen.RandKSAT(r, n, 2+r.Intn(3), 2)...)
+					clauses = append(clauses, gen.RandKSAT(r, n, n+r.Intn(n), 3)...)
+					for j := 0; j < 1+r.Intn(2); j++ { // a consequence of the fact
+						clauses = append(clauses, []int{-clauses[0][0], gen.RandLit(r, n)})
+					}
+					clauses = gen.Shuffle(r, clauses)
+				}
+				big := i%5 == 2
+				if big { // 10..13 variables, sparse: the solvers of the MUS methods have to decide several
+					// times on top of the assumption level, conflicts at depth resolve through consequences of facts
+					n = 10 + r.Intn(4)
+					clauses = [][]int{{gen.RandLit(r, n)}}
+					if r.Intn(2) == 0 {
+						clauses = append(clauses, []int{gen.RandLit(r, n)})
+					}
+					clauses = append(clauses, gen.RandKSAT(r, n, 3+r.Intn(3), 2)...)
+					clauses = append(clauses, gen.RandKSAT(r, n, int(3.2*float64(n))+r.Intn(n), 3)...)
+					for j := 0; j < 2; j++ {
+						clauses = append(clauses, []int{-clauses[0][0], gen.RandLit(r, n)})
+					}
+					clauses = gen.Shuffle(r, clauses)
+				}
 				if i%7 == 0 && len(clauses) > 0 { // repeated / complementary literals inside a clause
 					j := r.Intn(len(clauses))
 					x := clauses[j][r.Intn(len(clauses[j]))]
@@ -106,7 +136,7 @@ func init() {
 				for _, m := range methods {
 					ev = append(ev, gen.M{"op": "mus", "method": m})
 				}
-				res = append(res, gen.M{"drv": "explain", "n": n, "clauses": clauses, "ev": ev, "wb": i%2 == 0})
+				res = append(res, gen.M{"drv": "explain", "n": n, "clauses": clauses, "ev": ev, "wb": i%2 == 0 || big})
 			}
 			return res
 		},
